@@ -504,5 +504,31 @@ func compareRows(w *World, hist map[string][]mvEntry, sig map[string]string, see
 			sig["extra_key_newest_is_dead"] = "yes"
 		}
 	}
+	if sig["iterator"] == "db" {
+		// Plain-API data: every write of a key has the same version. Do copies of
+		// the differing key sit in a level's ingest buffer / deeper level (known
+		// tie-order defect, see C01)?
+		diffKey := detailKey
+		if diffKey == "" {
+			for i := range exp {
+				if i < len(got) && (exp[i].key != got[i].key || !bytes.Equal(exp[i].val, got[i].val)) {
+					diffKey = exp[i].key
+					break
+				}
+			}
+		}
+		sig["equal_version_copies_below_l0"] = "no"
+		if diffKey != "" {
+			n := 0
+			for _, cp := range w.DB.VerifLocate(kv.CFDefault, []byte(diffKey)) {
+				if wh := Where(cp); wh == "Ln" || wh == "Ln-ingest" {
+					n++
+				}
+			}
+			if n >= 1 && len(w.DB.VerifLocate(kv.CFDefault, []byte(diffKey))) >= 2 {
+				sig["equal_version_copies_below_l0"] = "yes"
+			}
+		}
+	}
 	w.Res.Violate(w.step, class, sig, "%s (key %q): got %v; expected %v", what, detailKey, got, exp)
 }
